@@ -2,11 +2,13 @@ package golang
 
 import (
 	"fmt"
+	"math"
 	"reflect"
 	"regexp"
 	"strings"
 	"unicode"
 
+	"github.com/grafana/cog/internal/ast"
 	"github.com/grafana/cog/internal/tools"
 )
 
@@ -217,6 +219,50 @@ func valueToDisjunctionBranchName(value reflect.Value) string {
 	}
 
 	return tools.UpperCamelCase(value.Kind().String())
+}
+
+// numericBranchFor finds the branch of a union that can hold a number: an integer
+// kind for a value without fractional part, or else a float kind.
+func numericBranchFor(union ast.StructType, value any) (ast.StructField, bool) {
+	var number float64
+	switch v := value.(type) {
+	case int64:
+		number = float64(v)
+	case float64:
+		number = v
+	default:
+		return ast.StructField{}, false
+	}
+
+	isNumeric := func(field ast.StructField, kinds ...ast.ScalarKind) bool {
+		if !field.Type.IsScalar() {
+			return false
+		}
+
+		for _, kind := range kinds {
+			if field.Type.AsScalar().ScalarKind == kind {
+				return true
+			}
+		}
+
+		return false
+	}
+
+	if number == math.Trunc(number) {
+		for _, field := range union.Fields {
+			if isNumeric(field, ast.KindInt8, ast.KindInt16, ast.KindInt32, ast.KindInt64, ast.KindUint8, ast.KindUint16, ast.KindUint32, ast.KindUint64) {
+				return field, true
+			}
+		}
+	}
+
+	for _, field := range union.Fields {
+		if isNumeric(field, ast.KindFloat32, ast.KindFloat64) {
+			return field, true
+		}
+	}
+
+	return ast.StructField{}, false
 }
 
 func unpackValue(value reflect.Value) reflect.Value {
